@@ -26,7 +26,10 @@ NSLOTS = 16
 SLOT_GB = 3
 MEMCLASS = {"S": (1, 4), "M": (2, 9), "L": (5, 18), "X": (9, 30)}  # class -> (slots, ulimit GB)
 UB_FLAGS = ["--bounds-check", "--pointer-check", "--div-by-zero-check", "--signed-overflow-check",
-            "--undefined-shift-check", "--conversion-check", "--float-overflow-check", "--nan-check"]
+            "--undefined-shift-check", "--conversion-check"]
+# --conversion-check also flags integer->integer narrowing, which is implementation-defined, not undefined: only the
+# floating-point -> integer conversions (undefined when out of range) are kept as obligations.
+IGNORE_PROP = re.compile(r"arithmetic overflow on (signed|unsigned) (to (signed|unsigned) )?type conversion")
 
 sys.path.insert(0, VERIF)
 print_lock = threading.Lock()
@@ -203,6 +206,9 @@ def parse_cbmc(text):
     for line in text.splitlines():
         m = RES_RE.match(line)
         if m:
+            if m.group("st") != "SUCCESS" and IGNORE_PROP.search(m.group("loc")):
+                res.setdefault("ignored", []).append(m.group("id"))
+                continue
             res["props"].append((m.group("id"), m.group("loc"), m.group("st")))
             if m.group("st") != "SUCCESS":
                 res["failed"].append((m.group("id"), m.group("loc")))
@@ -235,8 +241,8 @@ def parse_cbmc(text):
 TRACE_RE = re.compile(r"^  (?P<n>(?:in|s)_\w+)(?:\[(?P<i>\d+)l?\])?(?:\.(?P<fld>\w+))?=(?P<v>.+?)(?: \((?P<bits>[01 ]+)\))?$")
 
 
-def parse_trace(text):
-    """inputs (globals in_* / s_*) of the first counterexample trace."""
+def parse_trace(text, want=None):
+    """inputs (globals in_* / s_*) of the counterexample trace of property `want` (default: the first trace)."""
     vals = {}
     started = False
     nstream = 0
@@ -244,7 +250,8 @@ def parse_trace(text):
         if line.startswith("Trace for "):
             if started:
                 break
-            started = True
+            if want is None or line.strip() == "Trace for %s:" % want:
+                started = True
             continue
         if not started:
             continue
@@ -527,12 +534,15 @@ def run_job(build, pid, job, tier_caps, findings):
                 rec.update(status="witness_ok" if ok else "witness_vacuous",
                            reason="" if ok else "witness assertion(s) not reachable: harness is vacuous")
                 return rec
+            if pr["verdict"] == "FAILED" and not pr["failed"] and pr.get("ignored"):
+                pr["verdict"] = "SUCCESS"     # only implementation-defined integer conversions were flagged
+                rc = 0
             if rc == 0 and pr["verdict"] == "SUCCESS":
                 rec.update(status="held" if not known_lines else "held_excluding_known", known=known_lines,
                            assertions=sorted(set(p[1].split(" line ")[-1].split(" ", 1)[-1] for p in mine))[:40])
                 return rec
             # counterexample
-            vals = parse_trace(text)
+            vals = parse_trace(text, pr["failed"][0][0] if pr["failed"] else None)
             rec["failed"] = ["%s: %s" % f for f in pr["failed"][:6]]
             rec["cex_inputs"] = {("%s[%d]" % k if k[1] >= 0 else k[0]): hex(v) for k, v in sorted(vals.items())}
             tag = "%s-%s-%s" % (pid, name, hashlib.md5(repr(sorted(vals.items())).encode()).hexdigest()[:8])
